@@ -477,6 +477,62 @@ static void random_big(vh::Rng& r) {
     }
 }
 
+//same-array slice-to-slice assignment on big arrays (chunked / vectorised copies only show above some element count)
+template<class T>
+static void big_alias(vh::Rng& r) {
+    using A = dl::base_array<T>;
+    const char* tn = Elem<T>::name();
+    const int n = int(std::exp(r.uni(std::log(50.0), std::log(3e4))));
+    const int sd = int(r.pick(std::vector<int>{1, 1, 2, 3, -1, -2, -3, 5, -5}));
+    const int ss = int(r.pick(std::vector<int>{1, 2, 3, -1, -2, -3, 4, -4}));
+    const int maxcnt = (n - 1) / std::max(std::abs(sd), std::abs(ss));
+    if (maxcnt < 2) {
+        return;
+    }
+    const int cnt = int(r.range(2, maxcnt));
+    auto place = [&](int st, int* a, int* b) {
+        const int span = (cnt - 1) * std::abs(st);
+        const int lo = int(r.range(0, n - 1 - span));
+        if (st > 0) {
+            *a = lo;
+            *b = std::min(n, lo + span + 1);
+        } else {
+            *a = lo + span;
+            *b = lo - 1;   //exclusive stop below the last element; -1 would wrap, handled below
+        }
+    };
+    int da, db, sa, sb;
+    place(sd, &da, &db);
+    place(ss, &sa, &sb);
+    if (db < 0 || sb < 0) {
+        return;   //a negative-step slice reaching index 0 cannot be written with a non-negative exclusive stop
+    }
+    const Spec dsp = pyslice(n, da, db, sd);
+    const Spec ssp = pyslice(n, sa, sb, ss);
+    if (dsp.throws || ssp.throws || dsp.idx.size() != ssp.idx.size() || dsp.idx.empty()) {
+        return;
+    }
+    vh::begin_case("alias_big", "%s n=%d dst=(%d,%d,%d) src=(%d,%d,%d)", tn, n, da, db, sd, sa, sb, ss);
+    const A x0 = filled<T>(n);
+    std::vector<T> want = x0.to_vec();
+    for (size_t k = 0; k < dsp.idx.size(); ++k) {
+        want[dsp.idx[k]] = x0[ssp.idx[k]];
+    }
+    vh::Hasher h;
+    h.s("alias_big").s(tn).i(n).i(da).i(db).i(sd).i(sa).i(sb).i(ss);
+    vh::count(h.get(), true);
+    vh::obs_add("big_alias_pairs");
+    vh::obs_max("big_alias_largest_count", double(dsp.idx.size()));
+    const std::string d = vh::fmt("%s n=%d x.slice(%d,%d,%d) = x.slice(%d,%d,%d) (%zu elements)", tn, n, da, db, sd, sa, sb, ss, dsp.idx.size());
+    A x = x0;
+    const auto oc = try_call([&] { x.slice(da, db, sd) = x.slice(sa, sb, ss); });
+    if (oc != Outcome::Returned) {
+        vh::violation(vh::fmt("C04/alias_threw/%s/big", tn), d + " threw");
+    } else {
+        expect_array(vh::fmt("C04/alias_slice_big/%s/%s", tn, dsp.idx.size() > 64 ? "count>64" : "count<=64"), d, x, want);
+    }
+}
+
 int main(int argc, char** argv) {
     vh::init(argc, argv, "C04");
     const bool thorough = vh::g.thorough();
@@ -530,6 +586,21 @@ int main(int argc, char** argv) {
             random_big<real_t>(r);
         } else {
             random_big<cmplx_t>(r);
+        }
+    }
+    //random same-array pairs on big arrays
+    {
+        const int cnt = int((thorough ? 40000 : 4000) * bigscale);
+        for (int i = 0; i < cnt; ++i) {
+            if (!vh::mine(idx++)) {
+                continue;
+            }
+            vh::Rng r = vh::rng_for("bigalias", i);
+            if (i % 2 == 0) {
+                big_alias<real_t>(r);
+            } else {
+                big_alias<cmplx_t>(r);
+            }
         }
     }
     vh::g.exhaustive = true;
